@@ -775,20 +775,20 @@ class ODLEncoder(PVLEncoder):
         if value.utcoffset() == datetime.timedelta():
             return t + "Z"
         else:
-            td_str = str(value.utcoffset())
-            (h, m, s) = td_str.split(":")
-            if s != "00":
+            total = value.utcoffset().total_seconds()
+            sign = "-" if total < 0 else "+"
+            (h, rem) = divmod(abs(int(total)), 3600)
+            (m, s) = divmod(rem, 60)
+            if s != 0 or total != int(total):
                 raise ValueError(
                     "The datetime value had a timezone offset "
                     f"with seconds values ({value}) which is "
                     "not allowed in ODL."
                 )
-            if m == "00":
-                return t + f"+{h:0>2}"
+            if m == 0:
+                return t + f"{sign}{h:02d}"
             else:
-                return t + f"+{h:0>2}:{m}"
-
-        return t
+                return t + f"{sign}{h:02d}:{m:02d}"
 
     def encode_units(self, value) -> str:
         """Overrides parent function since ODL limits what characters
